@@ -103,14 +103,26 @@ PayCasesFor(chain, ver, offs, cltvs) ==
               h \in Tips(s, offs), cl \in cltvs} :
            b \in Backends, ss \in (IF chain = "lbtc" THEN BOOLEAN ELSE {TRUE}), s \in ABases(chain, ver),
            fd \in (IF ver = 6 /\ chain = "lbtc" THEN BOOLEAN ELSE {FALSE})}
+\* the tip moves between the attempts of one payment: the node fails the first
+\* `fails` attempts, attempt i is made while the tip is heights[i]
+RetrySeqs(chain) ==
+    IF chain = "btc"
+    THEN {<<503, 504, 505>>, <<504, 505, 506>>, <<500, 504, 504>>, <<3, 505>>, <<504, 504, 505, 505>>, <<0, 1, 2>>}
+    ELSE {<<58, 59, 60>>, <<59, 60, 61>>, <<0, 60>>, <<59, 59, 60>>, <<10, 20, 30>>, <<-1, 0>>, <<30, 59, 59, 60>>}
+RetryCasesFor(chain, ver, cltvs) ==
+    {[kind |-> "retry", chain |-> chain, ver |-> ver, backend |-> b, startSet |-> TRUE, start |-> s,
+      heights |-> [i \in 1..Len(q) |-> s + q[i]], fails |-> f, cltv |-> cl, found |-> FALSE] :
+        b \in Backends, s \in {1000, U32 - 600}, q \in RetrySeqs(chain), f \in 0..3, cl \in cltvs}
 FewCltvs == {0, 29, 30}
 FewOffs == {-1, 0, 29, 30, 59, 60}
 ActionC04(u) ==
     AwaitCasesFor("lbtc", 7, LiqOffs, LiqCltvs) \cup PayCasesFor("lbtc", 7, LiqOffs, LiqCltvs)
     \cup AwaitCasesFor("lbtc", 6, FewOffs, FewCltvs) \cup PayCasesFor("lbtc", 6, FewOffs, FewCltvs)
+    \cup {c \in RetryCasesFor("lbtc", 7, {9, 29}) \cup RetryCasesFor("lbtc", 6, {9}) : c.fails < Len(c.heights)}
 ActionC05(u) ==
     AwaitCasesFor("btc", 7, BtcOffs, BtcCltvs) \cup PayCasesFor("btc", 7, BtcOffs, BtcCltvs \ {-1, -2})
     \cup AwaitCasesFor("btc", 6, {0, 503, 504}, {503, 504, 505}) \cup PayCasesFor("btc", 6, {0, 504, 505}, {503, 504, 505})
+    \cup {c \in RetryCasesFor("btc", 7, {9, 503, 504}) : c.fails < Len(c.heights)}
 
 \* C24 at the Action level: which channel / invoice the claim-payment Action
 \* hands to the client (ValidateTxAndPayClaimInvoiceAction with the real client)
@@ -153,6 +165,8 @@ C05Allowed(t) ==
     /\ t.dp >= t.dc + MinConf("btc") - 1           \* the payment follows 3 confirmations
 C05Expected(u) == {t \in C05Tuples(0) : C05Allowed(t) /\ ~P_C05_margin(t.dp, RoutePermits(t.backend, t.cltv, 0), t.dc)}
 ASSUME JsonSerialize("c05_expected.json", SetToSeq(C05Expected(0)))
+\* the exports above are complete (the engine starts the harness while TLC goes on with the lemmas and the model)
+ASSUME JsonSerialize("export_done.json", [done |-> TRUE])
 \* first confirmation offset from which the margin holds for every accepted (dp, cltv)
 LateConf(b) == IF b = "CLN" THEN 2 ELSE 5
 LemmaC05Late == \A t \in C05Tuples(0) : (C05Allowed(t) /\ t.dc >= LateConf(t.backend)) =>
@@ -195,9 +209,10 @@ Confirmed == /\ phase = "watch" /\ tip >= Conf + MinConf(cf.chain) - 1
 Pay == /\ phase = "pay"
        /\ LET r == PayAttempt(cf.chain, cf.ver, cf.backend, cf.startSet, cf.start, tip, cf.cltv) IN
             IF r.sent
+            \* the attempt creates an HTLC; the node may fail it (the Action then retries while the tip moves on)
             THEN /\ htlc' = [p |-> tip, delta |-> RouteDelta(cf.backend, cf.cltv),
                              permits |-> RoutePermits(cf.backend, cf.cltv, Policy(cf.chain, cf.ver).maxDelta)]
-                 /\ phase' = "paid"
+                 /\ phase' \in {"paid", "pay"}
             ELSE /\ htlc' = htlc
                  /\ phase' = IF PayOK(cf.chain, cf.ver, cf.startSet, cf.start, tip) THEN "pay" ELSE "done"
        /\ UNCHANGED <<cf, tip>>
